@@ -12,18 +12,55 @@ import z3
 
 from ..arrays import NDArr, fresh_array, sym_array
 from ..objects import Instance
-from ..values import Opaque, binop, fresh_name, power, to_real, to_z3
+from ..values import Opaque, Unsupported, binop, fresh_name, power, to_real, to_z3
 from .common import explore_paths, prem_of
 
 PROPERTY = "C10"
+BC = z3.DeclareSort("BoundaryConditionData")
 _L = {}
+_STR_BC = {}
+
+
+def bc_term(bc):
+    """boundary-condition data as a term of an uninterpreted sort: symbolic data are constants, string literals
+    are pairwise distinct constants, so `self.bc_mu == self.default_bc_mu` is an ordinary (decidable) equality"""
+    if isinstance(bc, Instance) and "bc_term" in bc.attrs:
+        return bc.attrs["bc_term"]
+    if isinstance(bc, str):
+        if bc not in _STR_BC:
+            _STR_BC[bc] = z3.Const(f"bc_str_{bc}", BC)
+        return _STR_BC[bc]
+    if bc is None:
+        return z3.Const("bc_None", BC)
+    raise Unsupported(f"boundary condition data {bc!r}")
+
+
+def str_facts():
+    cs = list(_STR_BC.values()) + [z3.Const("bc_None", BC)]
+    return [z3.Distinct(*cs)] if len(cs) > 1 else []
+
+
+def sym_bc(name):
+    term = z3.Const(name, BC)
+    me = Instance(None, {"bc_term": term, "__isinstance__": ()}, name=name)
+
+    def eq(other):
+        if other is me:
+            return True
+        try:
+            return term == bc_term(other)
+        except Unsupported:
+            return False
+    me.attrs["__eq__"] = eq
+    return me
 
 
 def L(op, bc):
-    key = (op, id(bc))
-    if key not in _L:
-        _L[key] = z3.Function(f"L_{op}_{getattr(bc, 'what', id(bc))}".replace(" ", "_"), z3.RealSort(), z3.RealSort(), z3.RealSort())
-    return _L[key]
+    """the operator `op` with boundary conditions bc: an arbitrary map of (bc, value, t)"""
+    if op not in _L:
+        _L[op] = z3.Function(f"L_{op}", BC, z3.RealSort(), z3.RealSort(), z3.RealSort())
+    term = bc_term(bc)
+    return lambda v, t: _L[op](term, v, t)
 
 
 class Ops:
@@ -50,6 +87,7 @@ def mk_field(val, ops, kind="ScalarField"):
 
     def operator(name):
         def apply(bc=None, label=None, args=None, **kw):
+            bc = kw.pop("bc", bc)
             t = (args or {}).get("t")
             ops.times.append(t)
             return mk_field(L(name, bc)(to_z3(to_real(val)), to_z3(to_real(t)) if t is not None else z3.Real("t_missing")), ops)
@@ -67,7 +105,7 @@ def make_grid(ops):
             ops.times.append(t)
             x = data.read((0,)) if isinstance(data, NDArr) else data
             v = L(operator, bc)(to_z3(to_real(x)), to_z3(to_real(t)) if t is not None else z3.Real("t_missing"))
-            return fresh_array("op", (1,), lambda idx: v)
+            return fresh_array("op", data.shape if isinstance(data, NDArr) else (1,), lambda idx: v)
         return op
     return Instance(None, {"make_operator": make_operator}, name="grid")
 
@@ -79,47 +117,100 @@ CLASSES = {
     "KPZInterfacePDE": ("pde.pdes.kpz_interface", {"nu": "real", "lmbda": "real", "bc": "bc"}),
     "KuramotoSivashinskyPDE": ("pde.pdes.kuramoto_sivashinsky", {"nu": "real", "bc": "bc", "bc_lap": "bc"}),
     "SwiftHohenbergPDE": ("pde.pdes.swift_hohenberg", {"rate": "real", "kc2": "real", "delta": "real", "bc": "bc", "bc_lap": "bc"}),
+    "WavePDE": ("pde.pdes.wave", {"speed": "real", "bc": "bc"}),
+    "KleinGordonPDE": ("pde.pdes.klein_gordon", {"speed": "real", "mass": "real", "bc": "bc"}),
 }
+TWO_FIELDS = ("WavePDE", "KleinGordonPDE")
 
 
-def class_unit(clsname):
+def mk_collection(fields):
+    return Instance(None, {"__isinstance__": ("FieldCollection", "FieldBase"), "fields": list(fields), "__len__": lambda: len(fields),
+                           "__iter__": lambda: list(fields), "__getitem__": lambda k: fields[k]}, name="collection")
+
+
+def class_unit(clsname, omitted=()):
+    """the equation object is built by the real __init__ (defaults of omitted boundary conditions are the code's);
+    boundary conditions that are given are arbitrary data that may or may not equal a default"""
     mod, params = CLASSES[clsname]
 
     def unit(U):
         def body(it):
             cls = it.load_module(mod).get(clsname)
-            attrs = {}
+            kwargs = {}
             for k, kind in params.items():
-                attrs[k] = z3.Real(k) if kind == "real" else Opaque(k)
-            eq = Instance(cls, attrs)
-            u, t = z3.Real("u"), z3.Real("t")
+                if k in omitted:
+                    continue
+                kwargs[k] = z3.Real(k) if kind == "real" else sym_bc(k)
+            it.stub_modules["numpy"].attrs["random"] = Instance(None, {"default_rng": lambda *a: Opaque("rng")}, name="np.random")
+            def collection_init(interp, args, kw):
+                args[0].attrs["_fields"] = list(args[1])
+
+            it.contracts[("pde.fields.collection", "FieldCollection.__init__")] = collection_init
+            eq = it.instantiate(cls, [], kwargs)
+            u, v, t = z3.Real("u"), z3.Real("v"), z3.Real("t")
             ops_i, ops_c = Ops(), Ops()
-            state = mk_field(u, ops_i)
+            two = clsname in TWO_FIELDS
+            state = mk_collection([mk_field(u, ops_i), mk_field(v, ops_i)]) if two else mk_field(u, ops_i)
             r1 = it.call(it.getattr(eq, "evolution_rate"), [state, t], {})
-            tmpl = Instance(None, {"grid": make_grid(ops_c), "dtype": Opaque("dtype"), "__isinstance__": ("ScalarField",)}, name="state template")
+            tmpl = Instance(None, {"grid": make_grid(ops_c), "dtype": Opaque("dtype"), "__isinstance__": ("FieldCollection",) if two else ("ScalarField",)}, name="state template")
             rhs = it.call(it.getattr(eq, "make_evolution_rate"), [tmpl, Opaque("backend")], {})
-            data = fresh_array("state_data", (1,), lambda idx: u)
+            if two:
+                data = fresh_array("state_data", (2, 1), lambda idx: z3.If(to_z3(idx[0]) == 0, u, v))
+            else:
+                data = fresh_array("state_data", (1,), lambda idx: u)
             r2 = it.call(rhs, [data, t], {})
+            for f in str_facts():
+                it.ctx.assume(f)
             return r1, r2, ops_i, ops_c, t
 
+        n_ok = 0
         for p, res in enumerate(explore_paths(U, body)):
-            P = prem_of(res.ctx)
+            P = prem_of(res.ctx) + str_facts()
             nm = f"{clsname}.path{p}"
             if res.outcome != "return":
                 U.prove(f"{nm}.returns_normally", P, z3.BoolVal(False), info={"exc": str(res.exc)})
                 continue
+            n_ok += 1
             r1, r2, ops_i, ops_c, t = res.value
-            v1 = to_z3(to_real(r1.attrs["_val"]))
-            v2 = to_z3(to_real(r2.read((0,)))) if isinstance(r2, NDArr) else to_z3(to_real(r2))
-            U.prove(f"{nm}.interpreted_rate==compiled_rate_for_arbitrary_(possibly_affine)_operators_and_all_parameters", P, v1 == v2,
-                    info={"witness": "operators with inhomogeneous boundary conditions are affine, not linear"})
+            comps = [0, 1] if clsname in TWO_FIELDS else [None]
+            claims = []
+            for c in comps:
+                f1 = r1.attrs["_fields"][c] if c is not None else r1
+                v1 = to_z3(to_real(f1.attrs["_val"]))
+                v2 = to_z3(to_real(r2.read((c, 0) if c is not None else (0,)))) if isinstance(r2, NDArr) else to_z3(to_real(r2))
+                claims.append(v1 == v2)
+            U.prove(f"{nm}.interpreted_rate==compiled_rate_for_arbitrary_(possibly_affine)_operators_and_all_parameters", P, z3.And(*claims),
+                    info={"witness": "operators with inhomogeneous boundary conditions are affine, not linear", "prefer": "z3"})
             U.prove(f"{nm}.time_reaches_every_operator_call_on_both_paths", P,
                     z3.And(*[to_z3(to_real(x)) == t if x is not None else z3.BoolVal(False) for x in ops_i.times + ops_c.times]) if ops_i.times + ops_c.times else z3.BoolVal(False))
+        U.prove(f"{clsname}.has_normal_paths", [], z3.BoolVal(n_ok >= 1))
 
     return unit
 
 
-UNITS = [(c, class_unit(c)) for c in CLASSES]
+def _variants(clsname):
+    bcs = [k for k, kind in CLASSES[clsname][1].items() if kind == "bc"]
+    out = []
+    for m in range(2 ** len(bcs)):
+        omitted = tuple(b for i, b in enumerate(bcs) if m >> i & 1)
+        out.append((f"{clsname}[{'all boundary conditions given' if not omitted else 'default ' + '+'.join(omitted)}]", class_unit(clsname, omitted)))
+    return out
+
+
+UNITS = [u for c in CLASSES for u in _variants(c)]
+
+
+def _helper_units():
+    """compiled tensor helpers that expression rates call (outer(.,.) and dot(.,.)): the same contracts as in C19 --
+    out[i, j] = a[i] b[j] resp. sum_k a[.., k] b[k, ..], which is what the interpreted route computes with numpy"""
+    from . import C19
+
+    us = [("compiled_helpers.outer_product", C19.outer_product_unit)]
+    us += [(f"compiled_helpers.inner_product[rank_a={ra},rank_b={rb}]", C19.inner_product_unit(ra, rb)) for ra in (1, 2) for rb in (1, 2)]
+    return us
+
+
+UNITS += _helper_units()
 
 
 def bounded(tier, seed):
@@ -135,4 +226,5 @@ def bounded(tier, seed):
 TRUSTED = ["abstract field algebra: one arbitrary cell, operators with BC = uninterpreted maps L<op, bc>(value, t) (C03)"]
 ASSUMPTIONS = ["clause (a) only: numpy path = compiled path; the comparison with the advertised expression text is in the bounded check"]
 NOT_COVERED = ["equations given as expression strings (PDE._prepare_cache/_compile_rhs_single: sympy + printers + numba): not applicable to contracts, bounded native check only",
-               "WavePDE and KleinGordonPDE (collection states) and the expression-text clause: bounded native check only"]
+               "the expression-text clause (advertised `expression` strings equal the implemented rates): bounded native check only",
+               "ReactionDiffusion-type classes built on PDE(...) and user-defined PDEBase subclasses"]
